@@ -167,7 +167,8 @@ class AppGen:
         nsub = r.randint(sh["minsub"], sh["maxsub"]) if depth < sh["depth"] else 0
         nchain = sh.get("chain", 0) if depth == 0 else 0
         neleaf = r.randint(0, sh["eleaf"]) if sh.get("eleaf") else 0
-        names = self.fresh_names(nparams + narr + nsub + 3 + nchain + 3 * neleaf + (6 if sh.get("leafen") else 0) + (1 if selfmode else 0))
+        names = self.fresh_names(nparams + narr + nsub + 3 + nchain + 3 * neleaf + (6 if sh.get("leafen") else 0) + (1 if selfmode else 0)
+                                 + (12 if sh.get("intguards") else 0) + len(sh.get("hugearr", [])))
         used = []
 
         def nm():
@@ -314,6 +315,15 @@ class AppGen:
                 if p["dflt"][0] != "K" or p["deps"] or r.random() > sh["leafen"]:
                     continue
                 cand = [t for t in togs if t is not p and not t.get("en")]
+                if sh.get("intguards") and r.random() < sh["intguards"]:
+                    # the enabling port is an int or option port
+                    t = self.gen_param(nm(), r.choice(["I", "O"]))
+                    if t["kind"] == "I":
+                        t["min"], t["max"] = r.choice([(0, 3), (-2, 2), (None, None)])
+                    t["dflt"] = ("K", ("i", r.choice([0, 0, 1])))
+                    params.append(t)
+                    p["en"] = t["name"]
+                    continue
                 if not cand or r.random() < 0.3:
                     t = self.gen_param(nm(), "T")
                     params.append(t)
@@ -333,13 +343,22 @@ class AppGen:
             params.insert(r.randint(0, len(params)), t)
         for p in params:
             c.fields.append(p)
-        for i in range(narr):
+        huge = list(sh.get("hugearr", [])) if depth == 0 else []
+        for i in range(narr + len(huge)):
             ek = r.choice(["I", "I", "F", "T"])
+            if sh.get("arropt") and r.random() < sh["arropt"]:
+                ek = "O"                 # rArrayOption: enumerated elements, defaults by symbol or by int
             n = r.randint(5, 9) if sh.get("bigarr") else r.randint(2, 5)
             if sh.get("arrlens"):
                 n = r.randint(*sh["arrlens"])
+            if i >= narr:
+                n, ek = huge[i - narr]   # arrays of more than 100 elements (zynaddsubfx: Phmag#128, Pmapping#128)
             f = {"name": nm(), "role": "array", "ekind": ek, "n": n, "min": None, "max": None}
-            if ek == "I":
+            if ek == "O":
+                f["opts"] = self.fresh_names(r.randint(2, 5))
+                f["ostyle"] = r.choice(["sym", "sym", "int"])
+                f["dflts"] = [("i", r.randrange(len(f["opts"]))) for _ in range(n)]
+            elif ek == "I":
                 if r.random() < 0.5:
                     f["min"], f["max"] = r.choice([(-100, 100), (0, 100), (-5, 5)])
                 lo = f["min"] if f["min"] is not None else -128
@@ -349,7 +368,12 @@ class AppGen:
                 f["dflts"] = [fval(r.choice(DYADIC)) for _ in range(n)]
             else:
                 f["dflts"] = [bval(r.random() < 0.5) for _ in range(n)]
-            if sh.get("arrstyles"):
+            if i >= narr:
+                # `[Nx v]` defaults, some with a few leading elements of their own
+                lead = r.choice([0, 0, 1, 3])
+                f["dflts"] = f["dflts"][:lead] + [f["dflts"][lead]] * (n - lead)
+                f["dstyle"] = "rep"
+            elif sh.get("arrstyles"):
                 # defaults the way applications spell them: repetitions `6x7`, ranges `1 ... 5`, and per-preset arrays
                 def shaped(base):
                     shp = r.choice(["rand", "const", "lead", "arith", "runs"])
@@ -376,6 +400,8 @@ class AppGen:
                     return list(base)
 
                 def rnd_base():
+                    if ek == "O":
+                        return [("i", r.randrange(len(f["opts"]))) for _ in range(n)]
                     if ek == "I":
                         lo_ = f["min"] if f["min"] is not None else -128
                         hi_ = f["max"] if f["max"] is not None else 127
@@ -424,7 +450,18 @@ class AppGen:
                 pc = [p for p in params if p["kind"] in ("I", "O", "C", "F")]
                 if pc:
                     f["sdeps"] = [p["name"] for p in r.sample(pc, min(len(pc), r.choice([1, 1, 2])))]
-            if mode in ("ptr", "ptrs", "embg"):
+            if mode in ("ptr", "ptrs", "embg") and sh.get("intguards") and r.random() < sh["intguards"]:
+                # rEnabledBy naming an int or option port: enabled = the port holds a non-zero value
+                g = self.gen_param(nm(), r.choice(["I", "O"]))
+                if g["kind"] == "I":
+                    g["min"], g["max"] = r.choice([(0, 3), (-2, 2), (0, 127), (None, None)])
+                    g["dflt"] = ("K", ("i", r.choice([0, 0, 1, 2])))
+                else:
+                    g["dflt"] = ("K", ("i", r.choice([0, 0, 1])))
+                params.append(g)
+                c.fields.insert(r.randint(0, len(c.fields)), g)
+                f["en"] = g["name"]
+            elif mode in ("ptr", "ptrs", "embg"):
                 if not toggles or r.random() < 0.5:
                     t = self.gen_param(nm(), "T")
                     params.append(t)
@@ -503,7 +540,7 @@ def flatten(root):
                     it = Inst()
                     it.addr = prefix + f["name"] + str(k)
                     it.f = f
-                    it.kind = {"I": "H", "F": "F", "T": "T"}[f["ekind"]]
+                    it.kind = {"I": "H", "F": "F", "T": "T", "O": "O"}[f["ekind"]]
                     it.guards = list(guards)
                     it.local = here
                     it.arr = k
@@ -692,7 +729,7 @@ def descriptor(app):
             d = "P%d:%s:%s" % (rank[it.local[pn]], "/".join("%d=%s" % (k, vtok(tbl[k][it.arr])) for k in sorted(tbl)),
                                vtok(f["dflts"][it.arr]))
         elif it.arr is not None:
-            d = "K" + vtok(f["dflts"][it.arr])
+            d = "K" + vtok(declared_text_val(it, f["dflts"][it.arr]))
         elif f["dflt"][0] == "K":
             d = "K" + vtok(declared_text_val(it, f["dflt"][1]))
         else:
@@ -753,7 +790,7 @@ def port_name(f):
     if f["role"] == "param":
         return f["name"] + {"I": "::i", "C": "::c", "F": "::f", "T": "::T:F", "O": "::i:c:S", "Z": "::s"}[f["kind"]]
     if f["role"] == "array":
-        return "%s#%d%s" % (f["name"], f["n"], {"I": "::i", "F": "::f", "T": "::T:F"}[f["ekind"]])
+        return "%s#%d%s" % (f["name"], f["n"], {"I": "::i", "F": "::f", "T": "::T:F", "O": "::i:c:S"}[f["ekind"]])
     if f["mode"] in ("emb", "ptr"):
         return f["name"] + "/"
     return "%s#%d/" % (f["name"], f["n"])
@@ -862,7 +899,7 @@ def gen_class_cxx(cls, out, app):
             if f["kind"] == "T":
                 L.append("    bool prev_%s;" % f["name"])      # the value the change hook saw last
         elif f["role"] == "array":
-            L.append("    %s %s[%d];" % ({"I": "int", "F": "float", "T": "bool"}[f["ekind"]], f["name"], f["n"]))
+            L.append("    %s %s[%d];" % ({"I": "int", "F": "float", "T": "bool", "O": "int"}[f["ekind"]], f["name"], f["n"]))
         elif f["role"] == "eleaf":
             for lf in f["leaves"]:
                 L.append("    %s %s_%s[%d];" % ({"I": "int", "F": "float", "T": "bool"}[lf["kind"]], f["name"], lf["name"], f["n"]))
@@ -1030,8 +1067,7 @@ def gen_class_cxx(cls, out, app):
             elif f["mode"] == "embs":
                 L.append("        for(int k = 0; k < %d; ++k) %s[k].reset();" % (f["n"], f["name"]))
     for f in params:
-        if f["kind"] == "T":
-            L.extend(recreate_subs(f, "        "))
+        L.extend(recreate_subs(f, "        "))      # (only enabling ports have sub-trees to recreate)
     L.append("    }")
     # change hook
     L.append("    void changed(const char *n) {")
@@ -1050,7 +1086,7 @@ def gen_class_cxx(cls, out, app):
         for g in ds:
             body.extend(assign_default(g, "            "))
         for g in [f] + ds:
-            if g["role"] == "param" and g["kind"] == "T":
+            if g["role"] == "param":
                 body.extend(recreate_subs(g, "            "))
         for g in [f] + ds:
             if g["role"] == "param":
@@ -1085,7 +1121,7 @@ def gen_class_cxx(cls, out, app):
             L.append("        %sout.push_back(pre + \"%s=\" + %s);" % (("if(%s) " % f["en"]) if f.get("en") else "", n, dump_expr(f["kind"], n)))
         elif f["role"] == "array":
             L.append("        for(int k = 0; k < %d; ++k) out.push_back(pre + \"%s\" + std::to_string(k) + \"=\" + %s);" % (
-                f["n"], n, dump_expr({"I": "I", "F": "F", "T": "T"}[f["ekind"]], n + "[k]")))
+                f["n"], n, dump_expr({"I": "I", "F": "F", "T": "T", "O": "O"}[f["ekind"]], n + "[k]")))
         elif f["role"] == "eleaf":
             for lf in f["leaves"]:
                 L.append("        for(int k = 0; k < %d; ++k) out.push_back(pre + \"%s\" + std::to_string(k) + \"/%s=\" + %s);" % (
@@ -1135,14 +1171,23 @@ def gen_class_cxx(cls, out, app):
             elif k == "Z":
                 L.append("    rString(%s, %d,%s%s \"d\")," % (n, f["len"], macro_default(k, f), dep))
         elif f["role"] == "array":
-            mac = {"I": "rArrayI", "F": "rArrayF", "T": "rArrayT"}[f["ekind"]]
-            dtext = arr_text(f["dflts"], f.get("dstyle", "plain"))
+            mac = {"I": "rArrayI", "F": "rArrayF", "T": "rArrayT", "O": "rArrayOption"}[f["ekind"]]
+
+            def spell(vals):
+                # option elements by symbol where the port spells them so
+                if f["ekind"] == "O" and f.get("ostyle") == "sym":
+                    return [("S", f["opts"][v[1]].encode()) for v in vals]
+                return vals
+            dtext = arr_text(spell(f["dflts"]), f.get("dstyle", "plain"))
             pre_ = ""
             if f.get("pdflt"):
                 pre_ = " rDefaultDepends(%s)," % f["pdflt"][0]
                 for key in sorted(f["pdflt"][1]):
                     pre_ += " rPreset(%d, %s)," % (key, arr_text(f["pdflt"][1][key], f.get("dstyle", "plain")))
-            L.append("    %s(%s, %d,%s%s rDefault(%s), \"d\")," % (mac, n, f["n"], macro_range(f, f["ekind"] == "F") if f["ekind"] != "T" else "", pre_, dtext))
+            rng_ = macro_range(f, f["ekind"] == "F") if f["ekind"] in ("I", "F") else ""
+            if f["ekind"] == "O":
+                rng_ = " rOptions(%s)," % ", ".join(f["opts"])
+            L.append("    %s(%s, %d,%s%s rDefault(%s), \"d\")," % (mac, n, f["n"], rng_, pre_, dtext))
         elif f["role"] == "eleaf":
             for lf in f["leaves"]:
                 var = "obj->%s_%s[idx]" % (n, lf["name"])
@@ -1235,6 +1280,18 @@ SHAPES = [
     (312, dict(minp=2, maxp=3, maxarr=1, minsub=2, maxsub=2, depth=2, pdep=0.6, selfen=0.6, subdeps=0.4, leafen=0.3)),
     # A13 rSelf tables that are off by default and have sub-trees of their own (the lines two levels below wait for the toggle)
     (402, dict(minp=2, maxp=3, maxarr=1, minsub=1, maxsub=2, depth=2, pdep=0.5, selfen=0.85)),
+    # added after the second white-box review of C12:
+    # A14 rEnabledBy naming int / option ports (sub-trees and parameters; enabled = non-zero), rArrayOption arrays with
+    #     defaults spelled by symbol and by int
+    (506, dict(minp=3, maxp=4, minarr=1, maxarr=2, minsub=3, maxsub=3, depth=1, pdep=0.4, intguards=0.7, leafen=0.5,
+               arropt=0.6, arrstyles=True, arrlens=(3, 7))),
+    # A15 the same two levels deep, guards of both sorts mixed
+    (537, dict(minp=2, maxp=3, minarr=1, maxarr=2, minsub=2, maxsub=2, depth=2, pdep=0.5, intguards=0.5, leafen=0.4,
+               arropt=0.5, arrstyles=True)),
+    # A16 arrays of more than 100 elements with `[Nx v]` defaults (two-/three-digit element addresses, lines of hundreds of
+    #     values); few other ports - the only application with more than ~80 parameter instances
+    (503, dict(minp=3, maxp=3, minarr=0, maxarr=0, minsub=0, maxsub=0, depth=0, pdep=0.5,
+               hugearr=[(128, "I"), (256, "F")])),
 ]
 
 _POOL = None
